@@ -346,37 +346,40 @@ def replay_state(ck, np, cluster, st, variant, predicted_tbl, stats):
                 except Exception as ex:
                     ck.violation("replayB:fit-raised", f"fit raised {ex!r} on a scripted behaviour (cov {cv})", rep)
                     return
-            for kind, Q in (("centre", centres), ("any", anyq)):
-                if kind == "centre" and cv != "good":
-                    continue
-                try:
-                    with warnings.catch_warnings():
-                        warnings.simplefilter("ignore")
-                        got = np.asarray(hgm.predict(Q))
-                        proba = np.asarray(hgm.predict_proba(Q))
-                except Exception as ex:
-                    ck.violation("replayB:predict-raised", f"predict/predict_proba raised {ex!r} ({kind} queries, cov {cv})", rep)
-                    return
-                stats["predictions"] += len(Q)
-                if got.shape != (len(Q),) or not np.issubdtype(got.dtype, np.integer):
-                    ck.violation("replayB:predict-shape", f"predict returned shape {got.shape} dtype {got.dtype}", rep)
-                    return
-                if proba.shape != (len(Q), K):
-                    ck.violation("replayB:predict-proba-shape", f"predict_proba shape {proba.shape}, K={K}", rep)
-                    return
-                for i, g in enumerate(got.tolist()):
-                    if kind == "centre" and centres_exact:
-                        allowed = predicted_tbl.get((ckey, "centre", i))
-                        stats["centre_exact"] += 1
-                    else:
-                        allowed = predicted_tbl.get((ckey, "any", -1))
+            ncen = len(centres) if cv == "good" else 0
+            Q = np.vstack([centres, anyq]) if ncen else anyq
+            try:
+                with warnings.catch_warnings():
+                    warnings.simplefilter("ignore")
+                    got = np.asarray(hgm.predict(Q))
+                    proba = np.asarray(hgm.predict_proba(Q))
+            except Exception as ex:
+                ck.violation("replayB:predict-raised", f"predict/predict_proba raised {ex!r} (cov {cv})", rep)
+                return
+            stats["predictions"] += len(Q)
+            if got.shape != (len(Q),) or not np.issubdtype(got.dtype, np.integer):
+                ck.violation("replayB:predict-shape", f"predict returned shape {got.shape} dtype {got.dtype}", rep)
+                return
+            if proba.shape != (len(Q), K):
+                ck.violation("replayB:predict-proba-shape", f"predict_proba shape {proba.shape}, K={K}", rep)
+                return
+            any_allowed = predicted_tbl.get((ckey, "any", -1))
+            if any_allowed is None:
+                raise RuntimeError(f"spec has no Predict state for clusters {ckey}")
+            for i, g in enumerate(got.tolist()):
+                kind = "centre" if i < ncen else "any"
+                if kind == "centre" and centres_exact:
+                    allowed = predicted_tbl.get((ckey, "centre", i))
                     if allowed is None:
-                        raise RuntimeError(f"spec has no Predict state for clusters {ckey} {kind} {i}")
-                    if g not in allowed:
-                        key = "replayB:predict-range" if not (0 <= g < K) else "replayB:predict-centre-label"
-                        ck.violation(key, f"predict({Q[i].tolist()}) = {g}, spec allows {sorted(allowed)} (K={K}, {kind} query, cov {cv})",
-                                     dict(rep, query=Q[i].tolist()))
-                        return
+                        raise RuntimeError(f"spec has no Predict state for clusters {ckey} centre {i}")
+                    stats["centre_exact"] += 1
+                else:
+                    allowed = any_allowed
+                if g not in allowed:
+                    key = "replayB:predict-range" if not (0 <= g < K) else "replayB:predict-centre-label"
+                    ck.violation(key, f"predict({Q[i].tolist()}) = {g}, spec allows {sorted(allowed)} (K={K}, {kind} query, cov {cv})",
+                                 dict(rep, query=Q[i].tolist()))
+                    return
         if len(ck.samples) < 2 and len(want_splits) >= 2:
             ck.sample({"binding": "B", "n": n, "min_points": mp, "max_iterations": mi, "config": rep["config"],
                        "oracle_log": [{k: (sorted(v) if isinstance(v, frozenset) else v) for k, v in e.items()} for e in log],
@@ -385,15 +388,59 @@ def replay_state(ck, np, cluster, st, variant, predicted_tbl, stats):
         cluster.GaussianMixture = real
 
 
-def run_generator(ck, np, cluster, name, consts, stats, nvariants):
-    res = tlc.run_tlc("HGMSplit", CFG.format(variant="intended", **consts), dump=True, coverage=True, workers=8, timeout=1500)
+# --------------------------------------------------------------------------- process-pool plumbing
+_G = {}   # per-process: np, cluster (inherited through fork)
+
+
+class Collector:
+    """Stand-in for core.Check inside worker processes: violations / samples are shipped to the parent."""
+
+    def __init__(self, seed, tier):
+        self.seed = seed
+        self.tier = tier
+        self.violations = []
+        self.samples = []
+
+    def violation(self, key, what, replay):
+        if len(self.violations) < 8:
+            self.violations.append((key, what, replay))
+        return True
+
+    def sample(self, obj, limit=2):
+        if len(self.samples) < limit:
+            self.samples.append(obj)
+
+
+def _replay_chunk(args):
+    blocks, start, nvariants, predicted, seed, tier = args
+    np, cluster = _G["np"], _G["cluster"]
+    col = Collector(seed, tier)
+    stats = {"replayed": 0, "with_split": 0, "predictions": 0, "centre_exact": 0}
+    nontrivial = set()
+    for j, blk in enumerate(blocks):
+        st = tla.parse_state_block(blk)
+        for v in range(nvariants):
+            variant = ((start + j) * 7 + v * 13 + seed) % 840
+            replay_state(col, np, cluster, st, variant, predicted, stats)
+        if st["splits"]:
+            nontrivial.add(hash((st["n"], st["minPts"], st["maxIter"], _freeze_log(st["log"]))))
+    return stats, nontrivial, col.violations, col.samples
+
+
+def _freeze_log(log):
+    return tuple((e["it"], e["pos"], e["imp"], e["asked"], tuple(sorted(e["c1"]))) for e in log)
+
+
+def run_generator(name, consts, seed, tier, mp_pool, nvariants):
+    """TLC exhaustive run + dispatch of every terminal state to the replay workers."""
+    res = tlc.run_tlc("HGMSplit", CFG.format(variant="intended", **consts), dump=True, coverage=True, workers=4, timeout=1500)
     info = {"name": name, "constants": consts, "states": res.distinct, "transitions": res.generated, "depth": res.depth,
             "tlc_wall_s": round(res.wall_s, 1), "coverage": {k: list(v) for k, v in res.coverage.items()}}
     if res.status != "ok":
-        ck.violation("spec:" + res.violated, f"TLC: {res.violated} violated on HGMSplit.tla ({name})", {"trace": res.error_trace, "constants": consts})
+        info["violated"] = res.violated
+        info["error_trace"] = res.error_trace
         res.cleanup()
-        return info, res
-    # pass 1: the spec's Predict behaviour per final clustering
+        return info, []
     predicted = {}
     done_blocks = []
     for blk in iter_dump_blocks(res.dump_path):
@@ -404,49 +451,427 @@ def run_generator(ck, np, cluster, name, consts, stats, nvariants):
             predicted.setdefault((tuple(st["clusters"]), q["kind"], q["k"]), set()).add(st["pred"])
         elif pc == "done":
             done_blocks.append(blk)
-    info["terminal_states"] = len(done_blocks)
-    t0 = time.time()
-    for i, blk in enumerate(done_blocks):
-        st = tla.parse_state_block(blk)
-        for v in range(nvariants):
-            variant = (i * 7 + v * 13 + ck.seed) % 840
-            replay_state(ck, np, cluster, st, variant, predicted, stats)
-        if st["splits"]:
-            stats["nontrivial"].add((st["n"], st["minPts"], st["maxIter"], tuple(_freeze_log(st["log"]))))
-    info["replay_wall_s"] = round(time.time() - t0, 1)
     res.cleanup()
-    return info, res
-
-
-def _freeze_log(log):
-    return tuple((e["it"], e["pos"], e["imp"], e["asked"], tuple(sorted(e["c1"]))) for e in log)
+    info["terminal_states"] = len(done_blocks)
+    chunk = 250
+    asyncs = [mp_pool.apply_async(_replay_chunk, ((done_blocks[a:a + chunk], a, nvariants, predicted, seed, tier),))
+              for a in range(0, len(done_blocks), chunk)]
+    return info, asyncs
 
 
 def run_spec_mutant(variant):
     return variant, tlc.run_tlc("HGMSplit", CFG.format(variant=variant, **MUT_CONSTS), workers=2, timeout=600)
 
 
+# --------------------------------------------------------------------------- binding A: real fits
+KINDS = ["separated", "overlapping", "duplicated", "collinear", "identical", "zerovar", "single", "lattice", "boundary"]
+WKINDS = ["unit", "uniform", "exponential", "lognormal6", "nearzero", "exactzero", "integer", "dominant", "zeroblob"]
+
+
+def gen_case(np, seed, i, tier):
+    """Seeded data set + weights + clusterer configuration (see DESIGN.md C15, binding A)."""
+    rng = np.random.RandomState((seed * 1000003 + i * 7919 + 15) % (2 ** 32))
+    d = 1 + i % 6
+    kind = KINDS[(i // 6) % len(KINDS)]
+    wkind = WKINDS[(i // 2 + i // 54) % len(WKINDS)]
+    sizes = [2 * d, 2 * d + 1, 4 * d, 8 * d + 1, 30, 60, 120] + ([200, 300] if tier == "thorough" else [])
+    n = max(2 * d, sizes[rng.randint(len(sizes))])
+    nb = 1 + rng.randint(4)
+    centres = rng.uniform(0.15, 0.85, size=(nb, d))
+    assign = rng.randint(nb, size=n)
+    if kind == "separated":
+        X = centres[assign] + 0.02 * rng.randn(n, d)
+    elif kind == "overlapping":
+        X = centres[assign] + rng.uniform(0.08, 0.2) * rng.randn(n, d)
+    elif kind == "duplicated":
+        m = max(2, n // 5)
+        base = centres[rng.randint(nb, size=m)] + 0.05 * rng.randn(m, d)
+        X = base[rng.randint(m, size=n)]
+    elif kind == "collinear":
+        t = rng.rand(n)
+        if rng.rand() < 0.5:
+            t = np.where(rng.rand(n) < 0.5, 0.1 + 0.05 * t, 0.8 + 0.05 * t)
+        a, b = rng.uniform(0.05, 0.45, d), rng.uniform(0.55, 0.95, d)
+        X = a + t[:, None] * (b - a)
+    elif kind == "identical":
+        X = np.tile(rng.uniform(0, 1, d), (n, 1))
+    elif kind == "zerovar":
+        X = centres[assign] + 0.03 * rng.randn(n, d)
+        X[:, rng.randint(d)] = rng.uniform(0, 1)
+        if d > 2 and rng.rand() < 0.3:
+            X[:, rng.randint(d)] = 0.0
+    elif kind == "single":
+        X = 0.5 + 0.1 * rng.randn(n, d)
+    elif kind == "lattice":
+        X = rng.randint(0, 5, size=(n, d)) / 4.0
+    else:  # boundary: mass piled up on the faces of the cube
+        X = 0.5 + 0.6 * rng.randn(n, d)
+    X = np.clip(X, 0.0, 1.0)
+    scaled = None
+    if rng.rand() < 0.12:
+        scaled = [(1e3, 0.0), (1e-3, 0.0), (1.0, 100.0), (10.0, -5.0)][rng.randint(4)]
+        X = X * scaled[0] + scaled[1]
+    if wkind == "unit":
+        w = None
+    elif wkind == "uniform":
+        w = rng.rand(n) + 1e-3
+    elif wkind == "exponential":
+        w = rng.exponential(size=n)
+    elif wkind == "lognormal6":
+        w = np.exp(6.0 * rng.randn(n))
+    elif wkind == "nearzero":
+        w = np.where(rng.rand(n) < 0.9, 10.0 ** rng.uniform(-300, -12, n), rng.rand(n) + 0.1)
+    elif wkind == "exactzero":
+        w = np.where(rng.rand(n) < 0.5, 0.0, rng.rand(n) + 0.1)
+    elif wkind == "integer":
+        w = rng.randint(1, 6, size=n).astype(float)
+    elif wkind == "dominant":
+        w = np.full(n, 1e-9)
+        w[rng.randint(n)] = 1.0
+    else:  # zeroblob: one whole generating blob has exactly zero weight
+        w = rng.rand(n) + 0.1
+        if nb > 1:
+            w[assign == 0] = 0.0
+    if w is not None and not np.sum(w) > 0:
+        w[rng.randint(n)] = 1.0
+    normalize = bool(rng.randint(2))
+    modifier = [0.05, 0.5, 1.0, 1.0, 2.0, 10.0][rng.randint(6)]
+    if rng.rand() < 0.75:   # exactly as SamplerCore constructs the clusterer
+        nmax = [None, None, 1, 2, 3, 5][rng.randint(6)]
+        max_iterations = 1000 if nmax is None else nmax - 1
+        min_points = None if nmax is None else 4 * d
+        style = "sampler"
+    else:
+        max_iterations = [0, 1, 2, 5][rng.randint(4)]
+        min_points = [None, 1, 2, d + 1, 3 * d][rng.randint(5)]
+        style = "free"
+    ctype = "diag" if rng.rand() < 0.2 else "full"
+    return dict(i=i, d=d, n=n, kind=kind, wkind=wkind, scaled=scaled, X=X, w=w, normalize=normalize, modifier=modifier,
+                max_iterations=max_iterations, min_points=min_points, style=style, ctype=ctype)
+
+
+def monitor_fit(np, gm, X, sample_weight):
+    """The mixture predicates of the property's first sentence, evaluated on one fitted GaussianMixture.
+    MONITORING of a numerical routine - not decided by the model.  Returns {predicate: detail} of failures."""
+    bad = {}
+    k = gm.n_components
+    wt = np.asarray(gm.weights_, dtype=float)
+    if not np.all(np.isfinite(wt)):
+        bad["weights_finite"] = wt.tolist()
+    else:
+        if np.any(wt < 0):
+            bad["weights_nonneg"] = float(wt.min())
+        if abs(float(wt.sum()) - 1.0) > 1e-9:
+            bad["weights_sum_one"] = float(wt.sum())
+    cov = np.asarray(gm.covariances_, dtype=float)
+    mats = [cov[j] if gm.covariance_type == "full" else np.diag(cov[j]) for j in range(k)]
+    for j, C in enumerate(mats):
+        if not np.all(np.isfinite(C)):
+            bad.setdefault("cov_finite", []).append(j)
+            continue
+        scale = max(1.0, float(np.max(np.abs(C))))
+        if float(np.max(np.abs(C - C.T))) > 1e-12 * scale:
+            bad.setdefault("cov_symmetric", []).append((j, float(np.max(np.abs(C - C.T)))))
+        ev = float(np.linalg.eigvalsh(0.5 * (C + C.T)).min())
+        if ev < -1e-12 * scale:
+            bad.setdefault("cov_psd", []).append((j, ev))
+    mu = np.asarray(gm.means_, dtype=float)
+    lo, hi = X.min(axis=0), X.max(axis=0)
+    tol = 1e-9 * np.maximum(hi - lo, np.maximum(np.abs(lo), np.abs(hi))) + 1e-300
+    for j in range(k):
+        if np.all(np.isfinite(wt)) and wt[j] > 1e-6:
+            if not np.all(np.isfinite(mu[j])):
+                bad.setdefault("mean_finite", []).append(j)
+            elif np.any(mu[j] < lo - tol) or np.any(mu[j] > hi + tol):
+                out = float(np.max(np.maximum(lo - mu[j], mu[j] - hi) / np.maximum(hi - lo, 1e-300)))
+                bad.setdefault("mean_in_bbox", []).append((j, float(wt[j]), out))
+    return bad
+
+
+def make_logging(np, real, rec):
+    class LoggingGaussianMixture(real):
+        def fit(self, X, sample_weight=None):
+            ent = {"k": self.n_components, "ctype": self.covariance_type, "n": int(len(X)), "bic": None, "pred": None,
+                   "monitor": None, "raised": None}
+            rec["gm"].append(ent)
+            self._ent = ent
+            try:
+                super().fit(X, sample_weight)
+            except Exception as ex:
+                ent["raised"] = repr(ex)
+                raise
+            ent["monitor"] = monitor_fit(np, self, np.asarray(X), sample_weight)
+            if ent["monitor"]:
+                ent["input"] = (np.array(X, dtype=float), None if sample_weight is None else np.array(sample_weight, dtype=float))
+            return self
+
+        def bic(self, X):
+            v = super().bic(X)
+            self._ent["bic"] = float(v)
+            return v
+
+        def predict(self, X):
+            lab = super().predict(X)
+            self._ent["pred"] = [int(x) for x in lab]
+            return lab
+
+    LoggingGaussianMixture.__name__ = "GaussianMixture"
+    return LoggingGaussianMixture
+
+
+def well_posed(np, X, w, k):
+    """'Clearly well-posed' input of one mixture fit (the rule under which a monitored failure is reported as
+    a violation): finite data of sampler-like scale (|x| <= 10), every coordinate of the points that carry
+    non-negligible weight (>= 1e-6 of the largest) spreads over >= 1e-3, and there are at least
+    4*k*(d+1) distinct such points."""
+    n, d = X.shape
+    if not np.all(np.isfinite(X)) or np.max(np.abs(X)) > 10.0:
+        return False
+    ww = np.ones(n) if w is None else np.asarray(w, dtype=float)
+    if not np.all(np.isfinite(ww)) or np.any(ww < 0) or not ww.sum() > 0:
+        return False
+    eff = X[ww >= 1e-6 * ww.max()]
+    if len(np.unique(eff, axis=0)) < 4 * k * (d + 1):
+        return False
+    return bool(np.all(eff.max(axis=0) - eff.min(axis=0) >= 1e-3))
+
+
+def _real_case(args):
+    """Worker: one real HierarchicalGaussianMixture fit with the logging mixture installed."""
+    seed, i, tier = args
+    np, cluster = _G["np"], _G["cluster"]
+    c = gen_case(np, seed, i, tier)
+    X, w, d, n = c["X"], c["w"], c["d"], c["n"]
+    cfg = {k: c[k] for k in ("i", "d", "n", "kind", "wkind", "scaled", "normalize", "modifier", "max_iterations", "min_points", "style", "ctype")}
+    out = {"cfg": cfg, "violations": [], "monitor": [], "trace": None, "fits": 0, "wall": 0.0}
+    rep = dict(cfg, seed=seed, X=X.tolist(), w=None if w is None else w.tolist())
+    rec = {"gm": [], "tol": []}
+    real = cluster.GaussianMixture
+    t0 = time.time()
+    hgm = cluster.HierarchicalGaussianMixture(n_init=1, max_iterations=c["max_iterations"], min_points=c["min_points"],
+                                              threshold_modifier=c["modifier"], covariance_type=c["ctype"], normalize=c["normalize"])
+    orig_tol = hgm._compute_bic_tolerance
+
+    def tol_wrapper(nf, weights):
+        v = orig_tol(nf, weights)
+        rec["tol"].append(float(v))
+        return v
+
+    hgm._compute_bic_tolerance = tol_wrapper
+    cluster.GaussianMixture = make_logging(np, real, rec)
+    rng_state = np.random.get_state()
+    try:
+        with warnings.catch_warnings():
+            warnings.simplefilter("ignore")
+            old = np.seterr(all="ignore")
+            try:
+                try:
+                    hgm.fit(X, None if w is None else w.copy())
+                except Exception as ex:
+                    out["violations"].append((f"realfit:fit-raised:{type(ex).__name__}",
+                                              f"HierarchicalGaussianMixture.fit raised {ex!r} on {c['kind']} data (n={n}, d={d}, weights {c['wkind']}, "
+                                              f"normalize={c['normalize']}, {c['ctype']})", rep))
+                    hgm = None
+                # ---- queries
+                if hgm is not None:
+                    corners = np.array(list(itertools.product(*[(0.0, 1.0)] * d)))
+                    lo, hi = X.min(axis=0), X.max(axis=0)
+                    Q = np.vstack([X, X[: min(5, n)], X[: min(5, n)], corners, corners * (hi - lo) + lo, np.full((1, d), 1e6), np.full((1, d), -1e6),
+                                   np.zeros((1, d)), np.full((1, d), 0.5), 1e6 * np.eye(d)])
+                    try:
+                        pred = np.asarray(hgm.predict(Q))
+                        proba = np.asarray(hgm.predict_proba(Q))
+                    except Exception as ex:
+                        out["violations"].append((f"realfit:predict-raised:{type(ex).__name__}", f"predict/predict_proba raised {ex!r}", rep))
+                        pred = None
+            finally:
+                np.seterr(**old)
+    finally:
+        cluster.GaussianMixture = real
+        np.random.set_state(rng_state)
+    out["wall"] = time.time() - t0
+    out["fits"] = len(rec["gm"])
+    # ---- monitored mixture predicates (every GaussianMixture.fit of this run)
+    for ent in rec["gm"]:
+        if ent["monitor"]:
+            Xi, wi = ent.pop("input")
+            out["monitor"].append({"k": ent["k"], "ctype": ent["ctype"], "n": ent["n"], "failed": ent["monitor"],
+                                   "well_posed": well_posed(np, Xi, wi, ent["k"]), "X": Xi, "w": wi, "case": cfg})
+    if hgm is None:
+        return out
+    # ---- projection to a trace
+    gm = rec["gm"]
+    evals, finals, j, bad_pattern = [], [], 0, None
+    while j < len(gm):
+        e = gm[j]
+        if e["k"] == 1 and e["bic"] is not None:
+            if j + 1 >= len(gm) or gm[j + 1]["k"] != 2 or gm[j + 1]["bic"] is None or gm[j + 1]["n"] != e["n"]:
+                bad_pattern = f"parent model #{j} not followed by a two-component model with bic on the same data"
+                break
+            ch = gm[j + 1]
+            evals.append({"size": e["n"], "imp": e["bic"] - ch["bic"], "asked": ch["pred"] is not None, "lab": tuple(ch["pred"] or ())})
+            j += 2
+        elif e["k"] == 1:
+            finals.append(e["n"])
+            j += 1
+        else:
+            bad_pattern = f"two-component model #{j} without a parent evaluation"
+            break
+    if bad_pattern is None and len(rec["tol"]) != len(evals):
+        bad_pattern = f"{len(rec['tol'])} threshold computations for {len(evals)} candidate evaluations"
+    if bad_pattern is None and any(f is not None for f in []):
+        pass
+    if bad_pattern:
+        out["violations"].append(("traceA:call-pattern", "mixture-model call pattern of fit is not that of the split loop: " + bad_pattern, rep))
+        return out
+    for ev, base in zip(evals, rec["tol"]):
+        ev["thr"] = hgm.threshold_modifier * base
+    vals = sorted({v for ev in evals for v in (ev["imp"], ev["thr"]) if not math.isnan(v)})
+    rank = {}
+    r = 1
+    for v in vals:
+        if v == -math.inf:
+            rank[v] = 0
+        else:
+            rank[v] = r
+            r += 1
+    rk = lambda v: -1 if math.isnan(v) else rank[v]  # noqa: E731
+    blank = {"size": 0, "imp": 0, "thr": 0, "asked": False, "lab": (), "K": 0, "labels": (), "label": 0}
+    events = [dict(blank, ev="E", size=ev["size"], imp=rk(ev["imp"]), thr=rk(ev["thr"]), asked=ev["asked"], lab=ev["lab"]) for ev in evals]
+    labels = np.asarray(hgm.labels_)
+    events.append(dict(blank, ev="K", K=int(hgm.n_clusters_)))
+    events.append(dict(blank, ev="L", labels=tuple(int(x) for x in labels)))
+    ok_pred = pred is not None
+    if ok_pred:
+        if pred.shape != (len(Q),) or not np.issubdtype(pred.dtype, np.integer):
+            out["violations"].append(("realfit:predict-shape", f"predict returned shape {pred.shape} dtype {pred.dtype}", rep))
+            ok_pred = False
+        elif proba.shape != (len(Q), int(hgm.n_clusters_)):
+            out["violations"].append(("realfit:predict-proba-shape", f"predict_proba shape {proba.shape}, n_clusters_={hgm.n_clusters_}", rep))
+    if ok_pred:
+        for v in sorted(set(int(x) for x in pred)):
+            events.append(dict(blank, ev="P", label=v))
+    mp_eff = c["min_points"] if c["min_points"] is not None else 2 * d
+    out["trace"] = {"n": n, "minPts": int(mp_eff), "maxIter": int(c["max_iterations"]), "ev": tuple(events)}
+    out["summary"] = {"evals": len(evals), "asked": sum(1 for e in evals if e["asked"]), "K": int(hgm.n_clusters_),
+                      "queries": int(len(Q)) if ok_pred else 0, "final_fits": finals,
+                      "raw": [(e["size"], e["imp"], e["thr"], e["asked"]) for e in evals][:12]}
+    out["rep"] = rep
+    return out
+
+
+TRACE_INV = INVARIANTS + ["TraceProgress"]
+TRACE_CFG = """INIT TraceInit
+NEXT TraceNext
+CONSTANTS
+  Ns = {1}
+  MinPtsSet = {1}
+  MaxIterSet = {1}
+  R = 1
+  Variant = "intended"
+""" + "".join(f"INVARIANT {i}\n" for i in TRACE_INV) + "CHECK_DEADLOCK FALSE\n"
+_ACC = re.compile(r'<<"ACCEPTED", (\d+)>>')
+
+
+def trace_module(traces):
+    body = ",\n".join("  " + tla.to_tla(t) for t in traces)
+    return ("---------------------------- MODULE HGMTraceData ----------------------------\n"
+            "EXTENDS Integers\n\nTraces == <<\n" + body + "\n>>\n"
+            "=============================================================================\n")
+
+
+def validate_batch(traces):
+    """Validate a batch of recorded traces with TLC.  Returns (verdicts, tlc totals): verdicts[i] is
+    ("accepted",) | ("invariant", name, error_trace) | ("rejected", event index, last matched state)."""
+    verdicts = [None] * len(traces)
+    totals = {"states": 0, "transitions": 0, "runs": 0, "coverage": {}}
+    alive = list(range(len(traces)))
+    for _ in range(6):
+        if not alive:
+            break
+        res = tlc.run_tlc("HGMTrace", TRACE_CFG, coverage=True, workers=2, timeout=1500,
+                          extra_modules={"HGMTraceData.tla": trace_module([traces[i] for i in alive])})
+        totals["states"] += res.distinct
+        totals["transitions"] += res.generated
+        totals["runs"] += 1
+        for k, (dd, tt) in res.coverage.items():
+            od, ot = totals["coverage"].get(k, (0, 0))
+            totals["coverage"][k] = (od + dd, ot + tt)
+        if res.status == "violation":
+            last = res.error_trace[-1][1] if res.error_trace else {}
+            t = last.get("tid")
+            if not isinstance(t, int):
+                raise RuntimeError("TLC reported a violation on HGMTrace without a tid:\n" + res.stdout[-2000:])
+            verdicts[alive[t - 1]] = ("invariant", res.violated, res.error_trace)
+            res.cleanup()
+            del alive[t - 1]
+            continue
+        acc = {int(m.group(1)) for m in _ACC.finditer(res.stdout)}
+        res.cleanup()
+        for pos, i in enumerate(alive, start=1):
+            if pos in acc:
+                verdicts[i] = ("accepted",)
+        for pos, i in enumerate(alive, start=1):
+            if pos not in acc:
+                # diagnose: the single trace, every reached state dumped; the furthest position is the first unmatched event
+                r1 = tlc.run_tlc("HGMTrace", TRACE_CFG, dump=True, workers=1, timeout=600,
+                                 extra_modules={"HGMTraceData.tla": trace_module([traces[i]])})
+                best = None
+                for st in r1.states():
+                    if best is None or st["l"] > best["l"] or (st["l"] == best["l"] and st["pc"] in ("done", "final")):
+                        best = st
+                r1.cleanup()
+                verdicts[i] = ("rejected", best["l"], best)
+        alive = []
+    for i, v in enumerate(verdicts):
+        if v is None:
+            raise RuntimeError("trace validation did not reach a verdict for every trace")
+    return verdicts, totals
+
+
 def main():
     ck = core.Check("C15", "model_checking")
     core.import_repo()
+    import multiprocessing as mp
     import numpy as np
     from tempest import cluster
 
-    stats = {"replayed": 0, "with_split": 0, "predictions": 0, "centre_exact": 0, "nontrivial": set()}
-    # ---- spec: seeded wrong variants must be refuted (non-vacuity), in parallel with the first generator run
-    pool = ThreadPoolExecutor(max_workers=6)
-    mut_futs = [pool.submit(run_spec_mutant, v) for v in SPEC_MUTANTS]
+    _G.update(np=np, cluster=cluster)
+    quick = ck.tier == "quick"
+    nreal = 48 if quick else 1080
+    mp_pool = mp.get_context("fork").Pool(12)     # forked before any thread exists
+    real_async = mp_pool.map_async(_real_case, [(ck.seed, i, ck.tier) for i in range(nreal)], chunksize=1)
 
+    # ---- spec: exhaustive generator runs (+ replay workers) and seeded wrong variants, concurrently
+    tpool = ThreadPoolExecutor(max_workers=8)
+    mut_futs = [tpool.submit(run_spec_mutant, v) for v in SPEC_MUTANTS]
+    nvariants = 1 if quick else 2
+    gen_futs = [tpool.submit(run_generator, name, consts, ck.seed, ck.tier, mp_pool, nvariants) for name, consts in spec_jobs(ck.tier)]
+
+    stats = {"replayed": 0, "with_split": 0, "predictions": 0, "centre_exact": 0}
+    nontrivial = set()
     gen_info = []
     states = transitions = 0
     cov_total = {}
-    nvariants = 1 if ck.tier == "quick" else 2
-    for name, consts in spec_jobs(ck.tier):
-        info, res = run_generator(ck, np, cluster, name, consts, stats, nvariants)
+    for f in gen_futs:
+        info, asyncs = f.result()
+        if "violated" in info:
+            ck.violation("spec:" + info["violated"], f"TLC: {info['violated']} violated on HGMSplit.tla ({info['name']})",
+                         {"trace": info.pop("error_trace"), "constants": info["constants"]})
+        for a in asyncs:
+            st, nt, viols, samples = a.get()
+            for k in stats:
+                stats[k] += st[k]
+            nontrivial |= nt
+            for key, what, rep in viols:
+                ck.violation(key, what, rep)
+            for s in samples:
+                if sum(1 for x in ck.samples if x.get("binding") == "B") < 2:
+                    ck.sample(s)
         gen_info.append(info)
-        states += res.distinct
-        transitions += res.generated
-        for k, (dd, tt) in res.coverage.items():
+        states += info["states"]
+        transitions += info["transitions"]
+        for k, (dd, tt) in info["coverage"].items():
             od, ot = cov_total.get(k, (0, 0))
             cov_total[k] = (od + dd, ot + tt)
 
@@ -457,32 +882,144 @@ def main():
         r.cleanup()
         if refuted[v] not in SPEC_MUTANTS[v]:
             raise RuntimeError(f"vacuity: seeded spec variant {v} was not refuted as expected (TLC: {r.status} {r.violated})")
-    actions = ["BeginIter", "CapStop", "SkipSmall", "Evaluate", "AcceptBest", "Stop", "Finalize", "Predict"]
-    for a in actions:
+    for a in ["BeginIter", "CapStop", "SkipSmall", "Evaluate", "AcceptBest", "Stop", "Finalize", "Predict"]:
         if cov_total.get(a, (0, 0))[1] == 0:
             raise RuntimeError(f"vacuity: action {a} never taken in the generator runs")
 
+    # ---- binding A: collect the real fits, validate their traces with TLC (HGMTrace), report monitors
+    real = real_async.get()
+    mp_pool.close()
+    mp_pool.join()
+    traces, owners = [], []
+    mon = {"fits_monitored": 0, "fits_with_failure": 0}
+    mon_keys = {}
+    real_summ = {"fits_run": len(real), "gm_fits": 0, "with_split": 0, "evaluations": 0, "asked": 0, "queries": 0,
+                 "max_K": 0, "wall_s_sum": 0.0, "by_kind": {}, "by_wkind": {}}
+    for o in real:
+        for key, what, rep in o["violations"]:
+            ck.violation(key, what, rep)
+        real_summ["gm_fits"] += o["fits"]
+        real_summ["wall_s_sum"] += o["wall"]
+        mon["fits_monitored"] += o["fits"]
+        for m in o["monitor"]:
+            mon["fits_with_failure"] += 1
+            for pred_name in m["failed"]:
+                mk = f"monitor:{m['ctype']}:k{m['k']}:{pred_name}" + (":well-posed" if m["well_posed"] else "")
+                ent = mon_keys.setdefault(mk, {"count": 0, "example": None})
+                ent["count"] += 1
+                if ent["example"] is None:
+                    ent["example"] = {"case": m["case"], "n": m["n"], "detail": m["failed"][pred_name]}
+            if m["well_posed"]:
+                # reproducible on a clearly well-posed input? refit the pristine class twice on the recorded input
+                again = []
+                for _ in range(2):
+                    g = cluster.GaussianMixture(n_components=m["k"], covariance_type=m["ctype"], n_init=1, random_state=42)
+                    with warnings.catch_warnings():
+                        warnings.simplefilter("ignore")
+                        old = np.seterr(all="ignore")
+                        try:
+                            st = np.random.get_state()
+                            g.fit(m["X"], m["w"])
+                            np.random.set_state(st)
+                            again.append(sorted(monitor_fit(np, g, m["X"], m["w"])))
+                        except Exception as ex:  # pragma: no cover
+                            again.append(["raised " + repr(ex)])
+                        finally:
+                            np.seterr(**old)
+                common = set(again[0]) & set(again[1]) & set(m["failed"])
+                for pred_name in sorted(common):
+                    ck.violation(f"monitor:{m['ctype']}:{pred_name}",
+                                 f"MONITORED mixture predicate {pred_name} fails reproducibly on a clearly well-posed input: "
+                                 f"GaussianMixture(n_components={m['k']}, covariance_type={m['ctype']!r}, random_state=42).fit on {m['n']} points "
+                                 f"(case {m['case']['kind']}/{m['case']['wkind']}, d={m['case']['d']}): {m['failed'][pred_name]}",
+                                 {"X": m["X"].tolist(), "w": None if m["w"] is None else m["w"].tolist(), "k": m["k"],
+                                  "covariance_type": m["ctype"], "case": m["case"], "failed": m["failed"]})
+        if o["trace"] is not None:
+            traces.append(o["trace"])
+            owners.append(o)
+    # batches
+    bsz = 60
+    batches = [list(range(a, min(a + bsz, len(traces)))) for a in range(0, len(traces), bsz)]
+    vfuts = [tpool.submit(validate_batch, [traces[i] for i in b]) for b in batches]
+    accepted = 0
+    tstates = ttrans = truns = 0
+    tcov = {}
+    for b, f in zip(batches, vfuts):
+        verdicts, totals = f.result()
+        tstates += totals["states"]
+        ttrans += totals["transitions"]
+        truns += totals["runs"]
+        for k, (dd, tt) in totals["coverage"].items():
+            od, ot = tcov.get(k, (0, 0))
+            tcov[k] = (od + dd, ot + tt)
+        for i, v in zip(b, verdicts):
+            o = owners[i]
+            s = o["summary"]
+            if v[0] == "accepted":
+                accepted += 1
+                real_summ["evaluations"] += s["evals"]
+                real_summ["asked"] += s["asked"]
+                real_summ["queries"] += s["queries"]
+                real_summ["max_K"] = max(real_summ["max_K"], s["K"])
+                if s["K"] > 1:
+                    real_summ["with_split"] += 1
+                real_summ["by_kind"][o["cfg"]["kind"]] = real_summ["by_kind"].get(o["cfg"]["kind"], 0) + 1
+                real_summ["by_wkind"][o["cfg"]["wkind"]] = real_summ["by_wkind"].get(o["cfg"]["wkind"], 0) + 1
+                if s["K"] > 1 and sum(1 for x in ck.samples if x.get("binding") == "A") < 2:
+                    ck.sample({"binding": "A", "case": o["cfg"], "K": s["K"], "evaluations (size, improvement, threshold, asked)": s["raw"]}, limit=6)
+            elif v[0] == "invariant":
+                ck.violation("traceA:invariant:" + v[1], f"HGMSplit invariant {v[1]} violated on the trace of a real fit ({o['cfg']})",
+                             dict(o["rep"], trace=traces[i], error_trace=v[2]))
+            else:
+                l = v[1]
+                evs = traces[i]["ev"]
+                e = evs[l - 1] if l <= len(evs) else {"ev": "end"}
+                key = {"E": "traceA:split-sequence", "K": "traceA:n-clusters", "L": "traceA:labels", "P": "traceA:predict-range"}.get(e["ev"], "traceA:incomplete")
+                ck.violation(key, f"trace of a real fit rejected by HGMTrace at event {l} {e}: spec state pc={v[2].get('pc')} K={v[2].get('K')} "
+                                  f"clusters={[len(c) for c in v[2].get('clusters', ())]} cap={traces[i]['maxIter'] + 1} minPts={traces[i]['minPts']} ({o['cfg']})",
+                             dict(o["rep"], trace=traces[i], first_unmatched_event=l, last_matched_state=v[2]))
+    for a in ["Internal", "TraceEval", "TraceK", "TraceLabels", "TracePredict", "TraceAccept"]:
+        if traces and tcov.get(a, (0, 0))[1] == 0:
+            raise RuntimeError(f"vacuity: trace action {a} never taken")
+
     ck.assumptions += [
         "the EM fits / BIC values / child predictions of GaussianMixture are an arbitrary oracle in the model "
-        "(the mixture invariants of the property's first sentence are monitored, not decided)",
+        "(the mixture invariants of the property's first sentence are MONITORED, not decided; weight == replication is not addressed)",
         "scripted replays use integer sample weights 1..n (exact doubles) as point identities",
+        "child clusters keep their indices in increasing order (true by construction of the list comprehensions), so child labels "
+        "are bound to points by position in the sorted cluster",
     ]
-    ck.finish({
-        "states": states,
-        "transitions": transitions,
-        "traces_validated_against_impl": stats["replayed"],
-        "evaluations": stats["replayed"] + stats["predictions"],
-        "distinct_nontrivial": len(stats["nontrivial"]),
-        "rule": "non-trivial = a spec behaviour (distinct oracle log) in which at least one split is accepted; every terminal "
-                "state of the exhaustive HGMSplit runs is replayed into the real fit/predict/predict_proba",
+    cov = {
+        "states": states + tstates,
+        "transitions": transitions + ttrans,
+        "traces_validated_against_impl": stats["replayed"] + accepted,
+        "evaluations": stats["replayed"] + stats["predictions"] + real_summ["evaluations"] + real_summ["queries"],
+        "distinct_nontrivial": len(nontrivial) + real_summ["with_split"],
+        "rule": "non-trivial = a behaviour in which at least one split is accepted: distinct oracle logs of the exhaustive HGMSplit runs "
+                "(every terminal state replayed into the real fit/predict/predict_proba) + real fits with K > 1 whose trace TLC accepted",
         "exhaustive": True,
         "generator_runs": gen_info,
         "seeded_spec_variants_refuted": refuted,
-        "replays_with_accepted_split": stats["with_split"],
-        "predictions_compared": stats["predictions"],
-        "centre_queries_compared_exactly": stats["centre_exact"],
+        "bindingB_replays": stats["replayed"],
+        "bindingB_replays_with_accepted_split": stats["with_split"],
+        "bindingB_predictions_compared": stats["predictions"],
+        "bindingB_centre_queries_compared_exactly": stats["centre_exact"],
+        "bindingA_real_fits": real_summ,
+        "bindingA_traces_accepted_by_TLC": accepted,
+        "bindingA_traces_submitted": len(traces),
+        "bindingA_validation": "TLA+ trace spec HGMTrace.tla (conjoins the HGMSplit actions), batched through TLC",
+        "bindingA_tlc": {"runs": truns, "states": tstates, "transitions": ttrans, "coverage": {k: list(v) for k, v in tcov.items()}},
         "tlc_coverage": {k: list(v) for k, v in cov_total.items()},
-    })
+        "monitor:scope": "MONITORING of the numerical EM routine (property sentence 1), not decided by the model: predicates logged for every "
+                         "GaussianMixture.fit made inside the real hierarchical fits ('full' and 'diag')",
+        "monitor:rule": "a monitored failure is a violation only if the failing fit's input is clearly well-posed (finite, |x| <= 10, every "
+                        "coordinate of the non-negligibly weighted points spreads >= 1e-3, >= 4k(d+1) distinct such points) and the failure "
+                        "reproduces on two fresh fits of the pristine class; everything else is listed here as a finding",
+        "monitor:fits": mon,
+    }
+    for k, v in sorted(mon_keys.items()):
+        cov[k] = v
+    ck.finish(cov)
 
 
 core.main_guard(main)
